@@ -114,6 +114,13 @@ def rand_unlock_script(rng, standard_only=False):
     return rbytes(rng, rng.randint(2, 80))
 
 
+def wsig(rng):
+    """the signature item of a witness stack: the last byte (hash type) is one opaque byte of the item - every value is well-formed"""
+    if rng.random() < 0.6:
+        return SIG
+    return SIG[:-1] + bytes([rng.choice([0x00, 0x00, 0x02, 0x03, 0x81, 0x82, 0x83, 0x80, 0xff, rng.randrange(256)])])
+
+
 def rand_tx(rng, standard_only=False, big=False):
     nin = rng.choice([1, 1, 1, 2, 3]) if not big else rng.choice([252, 253, 254, 300])
     nout = rng.choice([1, 1, 2, 2, 3, 5]) if not big else rng.choice([1, 252, 253, 254, 300])
@@ -148,17 +155,17 @@ def rand_tx(rng, standard_only=False, big=False):
         wit = []
         for (txid, vout, script, seq) in ins:
             if script[:3] == b'\x16\x00\x14' and len(script) == 23:
-                wit.append([SIG, PK])
+                wit.append([wsig(rng), PK])
             elif script[:3] == b'\x22\x00\x20' and len(script) == 35:
-                wit.append([b'', SIG, WS])
+                wit.append([b'', wsig(rng), WS])
             elif script == b'':
                 k = rng.random()
                 if k < 0.5:
-                    wit.append([SIG, PK])
+                    wit.append([wsig(rng), PK])
                 elif k < 0.7:
-                    wit.append([b'', SIG, WS])
+                    wit.append([b'', wsig(rng), WS])
                 elif standard_only:
-                    wit.append([SIG, PK])
+                    wit.append([wsig(rng), PK])
                 elif k < 0.8:
                     wit.append([rbytes(rng, 64)])
                 elif k < 0.9:
